@@ -85,6 +85,19 @@ void YmFmOPNA::reset()
 
 void YmFmOPNA::writeReg(uint32_t port, uint16_t addr, uint8_t data)
 {
+    if(p->m_queueCount >= static_cast<long>(c_queueSize))
+    {
+        // The queue is full: pass the oldest write to the chip now instead of overwriting it
+        ymfm::ym2608 *chip_r = reinterpret_cast<ymfm::ym2608*>(m_chip);
+        const Reg &front = p->m_queue[p->m_tailPos++];
+        if(p->m_tailPos >= c_queueSize)
+            p->m_tailPos = 0;
+        --p->m_queueCount;
+        uint32_t fa = 0 + 2 * ((front.addr >> 8) & 3);
+        chip_r->write(fa, front.addr & 0xff);
+        chip_r->write(fa + 1, front.data);
+    }
+
     p->writeReg(port, addr, data);
 }
 
